@@ -89,21 +89,45 @@ func runC01(c *Ctx) {
 		cc := CC(calls[0])
 		c.Check(cc.Args[0] == ssa.Value(dur), "O1.2", fk(fn)+":duration-passed-unchanged", calls[0].Pos(), "NewDoAtSchedule's duration must be the constructor's duration parameter itself")
 		// seconds = float64(duration)/1e9
-		isSeconds := func(v ssa.Value) bool {
-			if cl, ok := v.(*ssa.Call); ok && MatchCC(&cl.Call, Spec{"time", "Duration", "Seconds"}) && cl.Call.Args[0] == ssa.Value(dur) {
+		var isSecondsOf func(v, d ssa.Value, depth int) bool
+		isSecondsOf = func(v, d ssa.Value, depth int) bool {
+			if cl, ok := v.(*ssa.Call); ok && MatchCC(&cl.Call, Spec{"time", "Duration", "Seconds"}) && cl.Call.Args[0] == d {
 				return true
+			}
+			// a helper of the package that computes it from the duration it is given (durationSeconds(d))
+			if cl, ok := v.(*ssa.Call); ok && depth < 2 {
+				if sc := cl.Call.StaticCallee(); sc != nil && len(sc.Blocks) > 0 && PkgOf(sc) == PkgOf(fn) {
+					for i, a := range cl.Call.Args {
+						if a != d || i >= len(sc.Params) {
+							continue
+						}
+						n, all := 0, true
+						EachInstr(sc, func(in ssa.Instruction) {
+							if ret, ok := in.(*ssa.Return); ok && len(ret.Results) == 1 {
+								n++
+								if !isSecondsOf(ret.Results[0], sc.Params[i], depth+1) {
+									all = false
+								}
+							}
+						})
+						if n > 0 && all {
+							return true
+						}
+					}
+				}
 			}
 			b, ok := v.(*ssa.BinOp)
 			if !ok || b.Op != token.QUO {
 				return false
 			}
 			cvt, ok := b.X.(*ssa.Convert)
-			if !ok || cvt.X != ssa.Value(dur) || !isFloatType(cvt.Type()) {
+			if !ok || cvt.X != d || !isFloatType(cvt.Type()) {
 				return false
 			}
 			k, isC := ConstInt(b.Y)
 			return isC && k == 1_000_000_000
 		}
+		isSeconds := func(v ssa.Value) bool { return isSecondsOf(v, ssa.Value(dur), 0) }
 		nArg := cc.Args[1]
 		okN := SliceAny(nArg, isSeconds)
 		c.Check(okN, "O1.6", fk(fn)+":token-budget-from-exact-seconds", calls[0].Pos(), "the token budget n must be computed from float64(duration)/1e9")
